@@ -139,11 +139,14 @@ func ExecHint(row Row, salt int, slow bool) (d *Diff, conclusive bool, err error
 		wantReset = wantReset || row.Err == c
 	}
 	isReset := resetClass(cerr)
-	if isReset != wantReset {
-		return nil, false, nil // the kernel surfaced the hang-up differently this time
-	}
 	msg := cerr.Error()
 	hinted := strings.Contains(msg, "shared_port at") && strings.Contains(msg, "did not respond")
+	if isReset != wantReset {
+		if hinted && wantReset && (strings.Contains(msg, "EOF") || strings.Contains(msg, "connection reset by peer") || strings.Contains(msg, "broken pipe")) {
+			return &Diff{Sig: hintSig("NeverHides", "errors.Is"), Detail: fmt.Sprintf("%s: the annotated error %q names the hang-up but errors.Is no longer finds io.EOF / ECONNRESET / EPIPE in it", ctxt, msg)}, true, nil
+		}
+		return nil, false, nil // the kernel surfaced the hang-up differently this time
+	}
 	if hinted != row.Hint {
 		what := "hint missing"
 		if hinted {
